@@ -4,6 +4,7 @@ Model construction from parse trees and the model API.
 
 from __future__ import annotations
 
+import bisect
 import traceback
 from collections import OrderedDict
 from collections.abc import Callable
@@ -1148,6 +1149,9 @@ class ReferenceResolver:
         self.model = model
         self.pos_crossref_list = pos_crossref_list  # tool support
         self.delayed_crossrefs = []
+        # Positions of the already resolved references of each list attribute
+        # (keyed by object and attribute), to keep lists in textual order.
+        self._list_positions = {}
 
     def has_unresolved_crossrefs(self, obj, attr_name=None):
         """
@@ -1254,7 +1258,15 @@ class ReferenceResolver:
                 else:
                     resolved_crossref_count += 1
                     if attr.mult in [MULT_ONEORMORE, MULT_ZEROORMORE]:
-                        attr_value.append(resolved)
+                        # References may get resolved in any order (some of
+                        # them can be postponed): insert at the place given
+                        # by the position of the reference in the input.
+                        done = self._list_positions.setdefault(
+                            (id(obj), attr.name), []
+                        )
+                        idx = bisect.bisect(done, crossref.position)
+                        done.insert(idx, crossref.position)
+                        attr_value.insert(idx, resolved)
                     else:
                         setattr(obj, attr.name, resolved)
             else:  # crossref not in model
